@@ -273,16 +273,18 @@ class ConditionalGaussianPDF:
             CLambdaC = jnp.einsum(
                 "abcd,abed->abce", CLambda_x, MSigma_x
             )  # [R1,R,Dy,Dy]
-            delta_ln_det = jnp.linalg.slogdet(Sigma_y[:, None] - CLambdaC)[1].reshape(
-                (R,)
-            )
+            delta_ln_det = jnp.linalg.slogdet(
+                Sigma_y - CLambdaC.reshape((R, self.Dy, self.Dy))
+            )[1]
             ln_det_Sigma_xy = p_x.ln_det_Sigma + delta_ln_det
         else:
             # [R1,Dy,Dy] x [R1, Dy, D] = [R1, Dy, D]
             Sigma_yL = jnp.einsum("abc,acd->abd", self.Sigma, -Lambda_yM)
             # [R1, Dy, D] x [R1, Dy, D] = [R1, D, D]
             LSigmaL = jnp.einsum("abc,abd->acd", -Lambda_yM, Sigma_yL)
-            LSigmaL = jnp.tile(LSigmaL[:, None], (1, p_x.R)).reshape((R, p_x.D, p_x.D))
+            LSigmaL = jnp.tile(LSigmaL[:, None], (1, p_x.R, 1, 1)).reshape(
+                (R, p_x.D, p_x.D)
+            )
             delta_ln_det = jnp.linalg.slogdet(Lambda_x - LSigmaL)[1]
             ln_det_Sigma_xy = -(
                 jnp.tile(-self.ln_det_Sigma[:, None], (1, p_x.R)).reshape((R,))
@@ -1061,7 +1063,7 @@ class ConditionalIdentityGaussianPDF(ConditionalGaussianPDF):
         # Sigma
         Sigma_x = jnp.tile(p_x.Sigma[None], (self.R, 1, 1, 1)).reshape(R, p_x.D, p_x.D)
         Sigma_y = (self.Sigma[:, None] + p_x.Sigma).reshape((R, self.Dy, self.Dy))
-        C_xy = p_x.Sigma
+        C_xy = Sigma_x
         Sigma_xy = jnp.block([[Sigma_x, jnp.swapaxes(C_xy, 1, 2)], [C_xy, Sigma_y]])
         # Sigma_xy = jnp.empty((R, D_xy, D_xy))
         # Sigma_xy[:,:p_x.D,:p_x.D] = Sigma_x
@@ -1088,7 +1090,7 @@ class ConditionalIdentityGaussianPDF(ConditionalGaussianPDF):
             ln_det_Sigma_xy = p_x.ln_det_Sigma + delta_ln_det
         else:
             # [R1, Dy, D] x [R1, Dy, D] = [R1, D, D]
-            LSigmaL = jnp.tile(self.Lambda[:, None], (1, p_x.R)).reshape(
+            LSigmaL = jnp.tile(self.Lambda[:, None], (1, p_x.R, 1, 1)).reshape(
                 (R, p_x.D, p_x.D)
             )
             delta_ln_det = jnp.linalg.slogdet(Lambda_x - LSigmaL)[1]
